@@ -27,10 +27,42 @@ def compile_all(idlc, src, outdir, extra=()):
     return res
 
 
+def c_strip(txt):
+    """comments removed the way a C/C++ translator does it: line splices first (phase 2), then
+    comments outside string and character literals (phase 3)"""
+    txt = txt.replace("\\\r\n", "").replace("\\\n", "")
+    out, i, n = [], 0, len(txt)
+    while i < n:
+        c = txt[i]
+        if c == '"' or c == "'":
+            j = i + 1
+            while j < n and txt[j] != c and txt[j] != "\n":
+                j += 2 if txt[j] == "\\" else 1
+            out.append(txt[i:j + 1]); i = j + 1
+        elif txt.startswith("//", i):
+            j = txt.find("\n", i)
+            i = n if j < 0 else j
+        elif txt.startswith("/*", i):
+            j = txt.find("*/", i + 2)
+            out.append(" "); i = n if j < 0 else j + 2
+        else:
+            out.append(c); i += 1
+    return "".join(out)
+
+
 def strip_comments(txt, lang):
+    if lang in ("c", "cpp"):
+        return re.sub(r"\s+", " ", c_strip(txt)).strip()
     txt = re.sub(r"/\*.*?\*/", "", txt, flags=re.S)
     txt = re.sub(r"//[^\n]*", "", txt)
     return re.sub(r"\s+", " ", txt).strip()
+
+
+DOC_POOL = ["/**\n   * changed %s: ünïcödé /* not a comment start\n   @param x   y\n   */",
+            "/**\n   * %s writes below C:\\logs\\\n   */",                      # one line, ends in a backslash
+            "/**\n  µm  %s: text left of the asterisk column\n   */",            # multi-byte character at the margin
+            "/**\n * %s \"quoted\" ??/ trigraph // slashes \\\n */",
+            "/**\n\t* %s\ttabs\n\t*/"]
 
 
 def tokens(txt):
@@ -113,7 +145,7 @@ def run(ctx):
                 for m in dcl[3]:
                     if m[0] == "method":
                         has_method = True
-                        mem.append((m[0], m[1], m[2], m[3], "/**\n   * changed %s: ünïcödé /* not a comment start\n   @param x   y\n   */" % m[1]))
+                        mem.append((m[0], m[1], m[2], m[3], r.choice(DOC_POOL) % m[1]))
                         mem2.append((m[0], m[1], m[2], m[3], None))
                     else:
                         mem.append(m); mem2.append(m)
